@@ -30,4 +30,18 @@ PROPS["C07"] = {
     "assumptions": ["metadata keys are ASCII (HTTP tokens / gRPC keys); transports' own headers are subtracted by projecting the client side onto the generated key pool"],
 }
 
+PROPS["C19"] = {
+    "parts": [{"name": "dispatch", "pkg": "c19", "chk": "chk_c19_dispatch", "args": ["dispatch"]},
+              {"name": "mdquery", "pkg": "c19", "chk": "chk_c19_mdquery", "args": ["mdquery"]}],
+    "reasons": {"dispatch": {"1": "request handled by a different protocol handler than header token semantics prescribe"},
+                "mdquery": {"1": "query metadata contains an entry with an invalid key / non-printable value / not present in the query",
+                            "2": "param[...] key left in (or ordinary parameter missing from) the parameters bound to the message"}},
+    "rule": "dispatch: header lines for Connection/Upgrade/Sec-WebSocket-Protocol/Content-Type drawn from pools of exact, mixed-case, token-list, multi-line, near-miss values, parsed by http.ReadRequest, served by WebBridge.ServeHTTP with a recording router; "
+            "non-trivial = Connection or Content-Type present. mdquery: random url.Values mixing param[key] entries (valid/invalid keys, printable/control/non-ASCII values) with ordinary parameters; non-trivial = at least one param[...] key",
+    "level_text": "Coq theorems: dispatch equals the RFC 7230 token-list semantics stated relationally (comma-split, OWS-trim, case-insensitive; exact sub-protocol match; lower-cased media type prefix), for all header multimaps; metadata extraction yields only valid keys/printable values that occur in the query and removes all param[...] keys while other parameters are unchanged; validity predicates equal the gRPC character classes on all 256 bytes. Tied to the code through WebBridge.ServeHTTP and an export shim of parseMetadataQuery.",
+    "level_note": "Trusted: Coq kernel, extraction, modelrun, Go harness; net/http header parsing and url.ParseQuery/Encode are exercised, not modelled; gws's own handshake checks are outside the property.",
+    "design_ref": "DESIGN.md §3 C19",
+    "assumptions": ["header names are matched by net/http canonicalisation; the model receives headers as net/http parsed them"],
+}
+
 NOT_APPLICABLE = {}
